@@ -71,7 +71,7 @@ theorem tableLoop_fuel (fuel : Nat) (rest : Bytes) (pos : Nat) (offs : List (Int
   induction fuel generalizing rest pos offs with
   | zero => omega
   | succ fuel ih =>
-    simp only [tableLoop]
+    simp only [tableLoop, subCount_eq, subsectionFirst_eq]
     cases htl : takeLine rest with
     | none => simp
     | some lk =>
